@@ -42,6 +42,7 @@ type VGrant struct {
 	MemType   string `json:"memtype"`
 	MemZone   []int  `json:"memzone"`
 	MemSize   int64  `json:"memsize"`
+	MemPreserve bool `json:"mem_preserve"`
 }
 
 type VZone struct {
@@ -146,11 +147,12 @@ func VerifSnapshot(b policyapi.Backend) *VSnapshot {
 		}
 		s.Pools = append(s.Pools, vp)
 	}
+	s.Grants = []VGrant{}
 	for id, g := range p.allocations.grants {
 		s.Grants = append(s.Grants, VGrant{
 			ID: id, Pool: g.GetCPUNode().Name(), Exclusive: g.ExclusiveCPUs().List(), Isolated: g.IsolatedCPUs().List(),
 			CPUType: g.CPUType().String(), Portion: g.CPUPortion(), MemType: g.MemoryType().String(),
-			MemZone: vMaskSlice(g.GetMemoryZone()), MemSize: g.GetMemorySize(),
+			MemZone: vMaskSlice(g.GetMemoryZone()), MemSize: g.GetMemorySize(), MemPreserve: g.MemoryType() == memoryPreserve,
 		})
 	}
 	sort.Slice(s.Grants, func(i, j int) bool { return s.Grants[i].ID < s.Grants[j].ID })
